@@ -202,7 +202,7 @@ def run_parallel(Sys, cfgs, depth, d0, split=1, close_every=True, contain_crashe
     split = min(split, depth)
     items = [(cfg, (), split, True) for cfg in cfgs] if split > 0 else []
     stage2 = [] if split > 0 else [(cfg, (), depth, False) for cfg in cfgs]
-    for item, r in pool.pmap(_work, [[it] for it in items], contain_crashes=contain_crashes):
+    for item, r in pool.pmap(_work, [[it] for it in items], contain_crashes=contain_crashes, item_timeout=3600):
         if isinstance(r, pool.WorkerError):
             raise InfraError(r.tb)
         if isinstance(r, pool.Crash):
@@ -212,7 +212,7 @@ def run_parallel(Sys, cfgs, depth, d0, split=1, close_every=True, contain_crashe
         if depth > split:
             for h in r.frontier:
                 stage2.append((item[0], h, depth, False))
-    for item, r in pool.pmap(_work, [[it] for it in stage2], contain_crashes=contain_crashes):
+    for item, r in pool.pmap(_work, [[it] for it in stage2], contain_crashes=contain_crashes, item_timeout=3600):
         if isinstance(r, pool.WorkerError):
             raise InfraError(r.tb)
         if isinstance(r, pool.Crash):
